@@ -251,7 +251,10 @@ class Enumerate:
     kind = "enumerate"
 
     def __init__(self, name, cases, run, shards_quick=4, shards_thorough=16, required=None,
-                 count=None):
+                 count=None, exhaustive=True):
+        # exhaustive=False: `cases` lists a fixed set of constructed cases (every boundary size once, say) whose free
+        # parameters are a pure function of VERIF_SEED - a listed sample, not a whole finite domain
+        self.exhaustive = exhaustive
         self.name = name
         self.cases = cases
         self.run = run
@@ -452,7 +455,7 @@ def _job_enumerate(sub, shard, nshards, tier, res, tmpdir, excluded):
             seen_fail[v.sig] = (v.sig, v.msg, case)
             excluded = excluded | {v.sig}
     res.failures.extend(seen_fail.values())
-    res.exhaustive = True
+    res.exhaustive = bool(getattr(sub, "exhaustive", True))
 
 
 def _job_fuzz(modname, sub, shard, tier, seed, res, tmpdir, known_sigs, n_override):
